@@ -121,14 +121,14 @@ func propC12(c *Ctx) {
 	}
 	for li := range langVals {
 		for lj := range langVals {
-			if c.quick && (li*10+lj)%4 != int(r.Seed%4) {
+			if c.quick && (li*10+lj)%6 != int(r.Seed%6) {
 				continue
 			}
 			c.concScenario("pair-of-first-used-languages", 8+c.rng.Intn(9), mk(li, lj))
 		}
 	}
 	// same language hammered by many goroutines (the once-vs-nil-check window)
-	reps := 10
+	reps := 6
 	if !c.quick {
 		reps = 60
 	}
